@@ -316,7 +316,8 @@ PromptCmd(d, c) ==
          [] c.cls = "quit"    -> [Emit(d1, "prompt", MsgExiting \o <<NL>>) EXCEPT !.phase = "done", !.why = "quit"]
          [] c.cls = "print"   -> LET p == PrintOut(d.m, c.what) IN
                                  IF p.ok THEN Emit(d1, "promptprint", p.out) ELSE Emit(d1, "prompt", MsgInvalidInput \o <<NL>>)
-         [] c.cls = "garbage" -> Emit(d1, "prompt", MsgInvalidInput \o <<NL>>)
+         \* (any other line, also one that was meant for an input service: not a command)
+         [] c.cls \notin {"next", "quit", "print", "unreadable"} -> Emit(d1, "prompt", MsgInvalidInput \o <<NL>>)
          \* a line that is not valid UTF-8: reported, then the run goes on as after `next`
          [] c.cls = "unreadable" ->
               LET d2 == Emit(d1, "prompt", MsgStdinError \o <<NL>>) IN
